@@ -1,14 +1,101 @@
 /-
-  Driver.C05 — line protocol front end for property C05 (stub: not built yet).
+  Driver.C05 — line protocol for forward-mode differentiation (traces).
+
+    @ trace fp|rat                new case                                             → ok
+    <instruction line>            (Driver/Prog.lean) executed once per input created so far,
+                                  that input being the `Trace::variable`, all others constants
+                                                   → v=<value> d=<derivative per input, creation order>
+    derivs <r>                    the same program run with records on a tape, `derivatives()` of r
+                                  compared with the forward answers   → fwdrev=ok d=<∂r/∂x per input>
+                                                                      | fwdrev=ok const
+
+  Everything printed is what C05 speaks about, computed from the *specification* (`Prog.eval`,
+  `Prog.grad`); the dual-number model (`Prog.execDual`) and the tape model are compared with it on
+  every line (`MODEL-SPEC-DISAGREE` is a machinery error: Props/C05 proves they coincide).
 -/
-import Driver.Parse
+import Driver.C04
 
 namespace Driver.C05
+open EasyMl EasyMl.Spec Driver
 
-abbrev State := Unit
+structure TState (R : Type) where
+  /-- specification state, tape model state, names: as in C04 -/
+  base : C04.PState R := {}
+  /-- per input (position): formal derivatives of all instructions so far -/
+  tss : List (Nat × List R) := []
+  /-- per input (position): the dual numbers of the run in which it is seeded -/
+  dss : List (Nat × List (Dual R)) := []
 
-def init : State := ()
+inductive State where
+  | none
+  | fp (s : TState Fp)
+  | rat (s : TState Rat)
 
-def step (s : State) (_toks : List String) : State × String := (s, "unimplemented")
+def init : State := .none
+
+section
+variable {R : Type} [Elem R]
+
+def stepInstr (s : TState R) (name : String) (ins : Instr R) (x : Option R) : TState R × String :=
+  let pos := s.base.vs.length
+  let vs := s.base.vs
+  let (base', recAns) := C04.stepInstr s.base name ins x
+  let env := envOf base'.envL
+  let v := ins.val env vs
+  -- existing inputs: one more step of the specification and of the dual model
+  let tss := s.tss.map fun (i, ts) => (i, ts ++ [ins.tan (unitSeed i) vs ts])
+  let dss := s.dss.map fun (i, ds) => (i, ds ++ [ins.execDual i env ds])
+  -- a new input: its run starts from the beginning of the program
+  let (tss, dss) :=
+    if ins.isVar then
+      (tss ++ [(pos, Prog.grad env base'.prog pos)], dss ++ [(pos, Prog.execDual pos env base'.prog)])
+    else (tss, dss)
+  let specD : List R := tss.map fun (_, ts) => ts.getD pos 0
+  let agree := (dss.zip specD).all fun ((_, ds), t) =>
+    let d := getDual ds pos
+    d.number == v && d.derivative == t
+  let bad := (recAns.splitOn "MODEL-SPEC-DISAGREE").length > 1
+  ({ base := base', tss := tss, dss := dss },
+   C04.flag (agree && !bad) s!"v={Elem.render v} d={renderList specD}")
+
+def stepDerivs (s : TState R) (k : Nat) : String :=
+  let dep := s.base.deps.getD k false
+  let specD : List R := s.tss.map fun (_, ts) => ts.getD k 0
+  let r := getRec s.base.recs k
+  if !dep then
+    let ok := (match r.tryDerivatives s.base.w with | .ok none => true | _ => false)
+      && specD.all (fun t => t == (0 : R))
+    C04.flag ok "fwdrev=ok const"
+  else
+    match r.derivatives s.base.w with
+    | .ok full =>
+      let rev : List R := s.tss.map fun (i, _) => full.getD (getRec s.base.recs i).index 0
+      let fwd : List R := s.dss.map fun (_, ds) => (getDual ds k).derivative
+      C04.flag (beqList rev specD && beqList fwd specD) s!"fwdrev=ok d={renderList specD}"
+    | .panic kind => s!"MODEL-SPEC-DISAGREE panic({kind})"
+
+def stepT (s : TState R) (toks : List String) : TState R × String :=
+  match toks with
+  | ["derivs", r] | ["derivs", r, _] | ["tryderivs", r] | ["tryderivs", r, _] =>
+    match s.base.names.find r with
+    | some k => (s, stepDerivs s k)
+    | none => (s, "bad-ref")
+  | _ :: name :: _ =>
+    match parseInstr (R := R) s.base.names toks with
+    | some (ins, x) => stepInstr s name ins x
+    | none => (s, if knownOp toks then "bad-ref" else "bad-op")
+  | _ => (s, "bad-op")
+
+end
+
+def step (s : State) (toks : List String) : State × String :=
+  match toks with
+  | "@" :: "trace" :: "fp" :: _ => (.fp {}, "ok")
+  | "@" :: "trace" :: "rat" :: _ => (.rat {}, "ok")
+  | _ =>
+    match s with
+    | .none => (s, "bad-op")
+    | .fp p => let (p', a) := stepT p toks; (.fp p', a)
+    | .rat p => let (p', a) := stepT p toks; (.rat p', a)
 
 end Driver.C05
